@@ -8,7 +8,7 @@ from values import fmt
 EXPLANATION = """
 T-taint over the library and the server binary on provenance terms, interprocedural (parameters are bound through every call site,
 struct fields are tracked by field name through every construction and assignment, closures through their captures).
-Sources: results of ServerConfig::seed (every implementation and the virtual call), kms::load_seed, EnvelopeEncryption::decrypt_seed, KmsProvider::decrypt_dek,
+Sources: results of ServerConfig::seed (every implementation and the virtual call), env::var(ROUGHENOUGH_SEED) (the seed as text, before decoding), kms::load_seed, EnvelopeEncryption::decrypt_seed, KmsProvider::decrypt_dek,
 reads of fields named `seed` or `signing_key`, SecretKey/SigningKey values.  Sinks: the arguments of log::__private_api::log, _print/_eprint, panic_fmt,
 the payload of unwrap/expect/unwrap_or_else(panic) when the error type can carry bytes, UdpSocket::send_to and TcpStream write payloads, the reporter's CSV writer and File writes.
 Declassifiers: len/is_empty, Signer::sign (signature), verifying_key/public_key_bytes, calc_srv_value, digests, AEAD seal output, KmsProvider::encrypt_dek.
@@ -43,6 +43,14 @@ def make_taint(W):
         p = strip_generics(t[1])
         return ("SecretKey" in p and callee_name(p) in ("try_from", "from")) or p.endswith("SigningKey::to_bytes") or p.endswith("SigningKey::to_keypair_bytes") or p.endswith("SigningKey::as_bytes") or p.endswith("SigningKey::to_scalar_bytes")
 
+    def src_env(t):
+        # the seed as text, before it is decoded into the configuration: env::var("ROUGHENOUGH_SEED")
+        p = strip_generics(t[1])
+        if not (p.startswith("std::env::var") and callee_name(p) in ("var", "var_os")) or not t[2]:
+            return False
+        a = W.expand(t[2][0])
+        return values.contains(a, lambda x: isinstance(x, tuple) and x and x[0] == "str" and "SEED" in x[1].upper())
+
     def declass(t):
         p = strip_generics(t[1])
         n = callee_name(p)
@@ -60,7 +68,7 @@ def make_taint(W):
             return True   # constructors wrap the secret in an opaque object; reads of its secret fields are sources again
         return False
 
-    return Taint(W, [("config.seed()", src_seed), ("load_seed/decrypt", src_load), ("secret-key-bytes", src_key)], ("seed", "signing_key", "secret_key"), declass, scope=in_scope)
+    return Taint(W, [("config.seed()", src_seed), ("load_seed/decrypt", src_load), ("secret-key-bytes", src_key), ("env::var(ROUGHENOUGH_SEED)", src_env)], ("seed", "signing_key", "secret_key"), declass, scope=in_scope)
 
 
 def err_payloads(W, T, t, depth=0):
